@@ -502,7 +502,7 @@ func genSend(rt *rapid.T) SendCase {
 	c.DataSeed = rapid.Uint64().Draw(rt, "seed")
 	if forceWrap || rapid.Bool().Draw(rt, "place") {
 		c.PlaceISS = true
-		c.StackISS = wrapNear(rt, "stack", c.Data)
+		c.StackISS = wrapNear(rt, "stack", c.Data, 65535)
 	}
 	n := rapid.IntRange(0, 25).Draw(rt, "nsteps")
 	for i := 0; i < n; i++ {
